@@ -159,6 +159,8 @@ def native_run(case, release=False):
         for k, v in case.items():
             if k == 'bytes':
                 v = ''.join('%02x' % b for b in v)
+            if v is None:
+                v = ''
             if isinstance(v, (str, int)):
                 f.write('%s=%s\n' % (k, v))
     env = common.env_offline({'VERIF_CASE': cpath, 'CARGO_TARGET_DIR': os.path.join(_scratch(), 'replay-target')})
